@@ -58,6 +58,10 @@ def make_case(args):
     C["smooth_full"] = lambda da, aux: da.spec.smooth(da.sizes["freq"] | 1, da.sizes["dir"] | 1)
     C["interp_same"] = lambda da, aux: da.spec.interp(freq=da.freq.values, dir=da.dir.values)
     C["hmax"] = lambda da, aux: da.spec.hmax()
+    # two boxes that are apart along BOTH axes (a swell box and a wind-sea box placed diagonally in the (freq, dir) plane)
+    C["bbox_diagonal"] = lambda da, aux: da.spec.partition.bbox(
+        [dict(fmin=float(da.freq[0]), fmax=float(da.freq[1]), dmin=10.0, dmax=90.0),
+         dict(fmin=float(da.freq[3]), fmax=float(da.freq[-1]), dmin=180.0, dmax=270.0)])
     out = []
     specs = degenerate_specs(rng, nf, nd)
     if fk == "alpha_one":
@@ -77,7 +81,7 @@ def make_case(args):
         for op in sorted(C):
             rec = dict(icase=icase, op=op, kind=kind, nf=nf, nd=nd, fk=fk, extra=nextra, freq=freq.tolist(), dirs=dirs.tolist(), E=E.tolist())
             # operations whose own parameters need a minimum grid size (they use the 2nd/3rd frequency as a cut-off)
-            need = {"stats_split": 4, "split": 4, "ptm5": 3, "bbox": 5, "interp": 2, "interp_nom0": 2, "split_one_cell": 3,
+            need = {"stats_split": 4, "split": 4, "ptm5": 3, "bbox": 5, "bbox_diagonal": 5, "interp": 2, "interp_nom0": 2, "split_one_cell": 3,
                     "split_on_nodes": 3, "ptm5_on_node": 3}
             if nf < need.get(op, 1):
                 continue
